@@ -156,6 +156,11 @@ def pathLoop (recur : UId → UId → List UId → CM α (List (Hop α) × List 
       if best.isEmpty || path.length < best.length then pathLoop recur start' stop' e rest path visited
       else pathLoop recur start' stop' e rest best visited
 
+/-- `if end in _ratios[start]: return [(_ratios[start][end], _offsets[start].get(end, 0), end)]` -/
+def directEdge (c : Conv α) (start stop : UId) : Option (Hop α) :=
+  (c.ratios.get? start stop).map (fun scale =>
+    { scale := scale, offset := (c.offsets.get? start stop).getD (.int 0), unit := stop })
+
 /-- `_find_path_recursive`; `visited` is the shared mutable set, threaded explicitly.
     Fuel bounds the recursion depth (every call below the first adds a graph node to
     `visited`, so `number of graph rows + 2` is enough). -/
@@ -167,6 +172,11 @@ def findPathRec (fuel : Nat) (start stop : UId) (visited : List UId) :
     if start == stop then return ([{ scale := .int 1, offset := .int 0, unit := stop }], visited)
     if visited.contains start then return ([], visited)
     let visited := visited ++ [start]
+    -- an equivalence declared between these very units (e.g. between two squares) would be hidden
+    -- by the reduction to roots (the `fix:` commit)
+    let c0 ← getThe (Conv α)
+    let direct := directEdge c0 start stop
+    if direct.isSome then return (direct.toList, visited)
     let (e, start', stop') ← reduceDimension start stop
     let c ← getThe (Conv α)
     pathLoop (findPathRec fuel) start' stop' e (c.ratios.row start') [] visited
